@@ -265,6 +265,26 @@ class StateGraph:
         p.reverse()
         return p
 
+    def write_walks(self, groups_path, nwalks, length, rnd, ban_ops=frozenset(), append=True):
+        """Random walks from init over the explored graph (each is a behaviour of the bounded model); every
+        step is checked by the harness.  Appended to the groups file as groups without edges."""
+        n = 0
+        with open(groups_path, "a" if append else "w") as f:
+            for _ in range(nwalks):
+                u = self.init
+                path = []
+                for _ in range(length):
+                    outs = [(a, v) for (a, v) in self.out[u] if a.get("op") not in ban_ops]
+                    if not outs:
+                        break
+                    a, v = outs[rnd.randrange(len(outs))]
+                    path.append({"act": a, "to": v})
+                    u = v
+                if path:
+                    f.write(json.dumps({"u": -1, "path": path, "edges": []}, separators=(",", ":")) + "\n")
+                    n += 1
+        return n
+
     def write_replay(self, states_path, groups_path, banned=frozenset(), only_states=None, max_edges_per_state=None,
                      rnd=None, ban_ops=frozenset()):
         """states file: one line per state {i, obs}; groups file: one line per source state
@@ -436,7 +456,7 @@ def violation(prop, path):
 
 # --------------------------------------------------------------------------- replay of a state graph
 def replay(graph, binaries, workdir, env=None, shards=4, banned=frozenset(), timeout=1100, max_edges_per_state=None,
-           rnd=None, ban_ops=frozenset()):
+           rnd=None, ban_ops=frozenset(), walks=0, walk_len=0):
     """Run every behaviour of the path cover of `graph` through each harness binary.
     Returns (summaries, deviations, crashes, nbehaviours)."""
     os.makedirs(workdir, exist_ok=True)
@@ -444,6 +464,9 @@ def replay(graph, binaries, workdir, env=None, shards=4, banned=frozenset(), tim
     gp = os.path.join(workdir, "groups.ndjson")
     nb, nreach = graph.write_replay(sp, gp, banned=banned, max_edges_per_state=max_edges_per_state, rnd=rnd,
                                     ban_ops=ban_ops)
+    if walks:
+        import random as _r
+        nb += graph.write_walks(gp, walks, walk_len, rnd or _r.Random(seed()), ban_ops=ban_ops)
     cmds, outs = [], []
     for bi, b in enumerate(binaries):
         for i in range(shards):
